@@ -582,13 +582,11 @@ impl<'a> Run<'a> {
         if threads > 0 {
             let tr = self.sc.targets[t].clone();
             let addr = self.target_addr(t);
-            let hs: Vec<_> = (0..threads)
-                .map(|_| {
-                    let tr = tr.clone();
-                    std::thread::spawn(move || if tr.kind == "synth" { arena::call_u32(addr) } else { real_target_call(tr.idx) })
-                })
-                .collect();
-            for h in hs {
+            // one thread at a time: how many thread stacks glibc keeps mapped must not depend on
+            // how the threads happen to overlap, because the kernel's later placement decisions do
+            for _ in 0..threads {
+                let tr = tr.clone();
+                let h = std::thread::spawn(move || if tr.kind == "synth" { arena::call_u32(addr) } else { real_target_call(tr.idx) });
                 got.push(h.join().unwrap_or(0xDEAD_0000));
             }
             self.probe("calls_from_other_threads");
